@@ -46,6 +46,16 @@ CHECKS = {
    note="Not decided: byte-identical output across thread counts, what a subclass' MergeWorker/EvalConfiguration computes "
         "(worker effect rule R5.7 of the design is not implemented), exception paths (EH edges off), fairness. Deadlock freedom is "
         "argued from the verified token protocol, not model-checked."),
+ "C01": dict(cat="proof", ref="DESIGN.md section 4 C01",
+   technique="def-use folding of BeadMap::Apply into canonical sum/guard terms with intercepted BCShortestConnection calls (dataflow identity), CFG must-pass-through for the half-box guard, ordering/dominance for box propagation, AST checks of weight normalisation",
+   text="For every BeadMap::Apply override the value reaching setPos/setVel/setF/setMass is shown to be exactly the "
+        "weighted sum of the property (positions only through BC(r0,pos)+r0 with r0 the first parent, velocity with weight_, "
+        "force with force_weight_=d/w), for every frame and box because it is an identity of the folded dataflow; the "
+        "half-box comparison guards every CFG path to setPos except for open boxes; the frame's box is installed before any "
+        "map runs; Initialize normalises w and d, stores d_i/w_i and throws on the stated inconsistencies.",
+   note="Obligations are structural/algebraic identities of the current source; holding implies the invariance clauses "
+        "(whole-box-vector displacement of non-first parents, rigid translation) given C02. Not decided: floating-point "
+        "rounding, creation of the CG topology (cgmoleculedef/cgengine tables, R1.6 of the design), csg_map's format pairs (C08)."),
 }
 NA = {
 }
